@@ -151,7 +151,25 @@ func runConc(c J) J {
 	venvs := make([]func() *val.Env, G)
 	for g := 0; g < G; g++ {
 		srcs[g] = renderSrc(obj(progs[g%len(progs)]), 0)
-		tenvs[g], venvs[g] = envFromJ(overrideEnv(arr(c["env"]), arr(ovs[g%len(ovs)])))
+		og := g
+		if kind == "shared" {
+			og = 0
+		}
+		tenvs[g], venvs[g] = envFromJ(overrideEnv(arr(c["env"]), arr(ovs[og%len(ovs)])))
+	}
+	if kind == "shared" {
+		// every goroutine is handed the SAME environment object; its lists have spare capacity (as lists built
+		// with ListVal.Add have), so that a built-in appending to an operand in place would write into shared memory
+		one := venvs[0]()
+		one.ForEach(func(name string, v *val.Val) {
+			if v.Type != nil && v.Type.Kind == types.KList {
+				l := v.List()
+				l.V = append(make([]*val.Val, 0, len(l.V)+4), l.V...)
+			}
+		})
+		for g := 0; g < G; g++ {
+			venvs[g] = func() *val.Env { return one }
+		}
 	}
 	obs := J{}
 	ss := A{}
@@ -173,7 +191,7 @@ func runConc(c J) J {
 		var shared *yae.Expr
 		var sharedCall yae.Callable
 		switch kind {
-		case "warm", "mixed", "invoke":
+		case "warm", "mixed", "invoke", "shared":
 			shared = quietEngine(pre, post, comp)
 			var res concOut
 			sharedCall, res = compileOn(shared, srcs[0], tenvs[0]())
@@ -275,7 +293,7 @@ func runConc(c J) J {
 
 	// for invoke / odd mixed goroutines the shared callable was compiled from srcs[0] with goroutine 0's
 	// types: what "alone" means for them is srcs[0] in their own environment
-	if kind == "invoke" || kind == "mixed" {
+	if kind == "invoke" || kind == "mixed" || kind == "shared" {
 		aj := A{}
 		for g := 0; g < G; g++ {
 			if kind == "mixed" && g%2 == 0 {
